@@ -5,8 +5,12 @@ static bool doRolandSysEx(unsigned dev, const uint8_t *data, size_t size);
 static bool doYamahaSysEx(unsigned dev, const uint8_t *data, size_t size);
 #include "extracted.c"
 
-uint8_t in_msg[64]; MIDIchannel g_table_before[ENV_N_MIDI_CHANNELS];
+uint8_t in_msg[64]; size_t in_size; uint8_t in_devid; MIDIchannel g_chan_before;
+#if defined(SPEC_CH) || defined(NO_REACH)
+#define REACH(cond, name)     /* vacuity goals live in the core group */
+#else
 #define REACH(cond, name) __CPROVER_assert(!(cond), "REACH " name)
+#endif
 uint8_t nondet_u8(void); size_t nondet_size(void); _Bool nondet_bool(void);
 
 void h_realTime_SysEx(void)
@@ -15,6 +19,10 @@ void h_realTime_SysEx(void)
     for(int i = 0; i < 64; i++) in_msg[i] = nondet_u8();
     
     g_play.hooks.onDebugMessage = nondet_bool() ? env_debug_hook : NULL;   /* the two hook states of the environment */
+    /* environment pointers are ASSIGNED here (and stated again as preconditions): CBMC resolves dereferences through
+     * value sets, which an assumed equality on a nondeterministic pointer does not update */
+    g_play.m_midiChannels = g_midiChannels_storage; g_play.m_synth = nondet_bool() ? &g_synth : NULL;
+    in_size = size; in_devid = g_play.m_sysExDeviceId;   /* named for the replay file */
     bool r = realTime_SysEx(msg, size);
     REACH(r, "accepted"); REACH(!r, "rejected");
     REACH(r && in_msg[1] == 0x7E && in_msg[4] == 1, "gm on"); REACH(r && in_msg[1] == 0x7E && in_msg[4] == 2, "gm off");
